@@ -115,6 +115,10 @@ structure Host where
   file system lists them (without "." and "..") -/
   preEntries : List Nat := []
   dirEntries : List Nat := []
+  /-- the same listings with the names themselves and the WASI file type of every entry (when known: the model then
+  predicts the bytes of the dirents, not only their extent) -/
+  preNames : List (List Nat × Nat) := []
+  dirNames : List (List Nat × Nat) := []
   /-- state of the dirent caches of the directory descriptors: `false` = fresh (nothing read yet), `true` = the
   complete listing has been read before and is cached (`countRead = len`, `eof`) -/
   cacheFull : Bool := false
